@@ -39,6 +39,16 @@ Theorem C14_concat : forall (S : Type) (seqb : S -> S -> bool) (X : Type) verify
 Proof. exact legacy_concat. Qed.
 Print Assumptions C14_concat.
 
+(* ... and, on single files, every merged row group carries the relative path of the file it came from
+   (with C14_basepath_string: base path + that relative path is the file's own normalised path) *)
+Theorem C14_rowgroups_point_home : forall (S : Type) (seqb : S -> S -> bool) (X : Type) verify basepath rel
+    (pfs : list (pfile S X)) bp sch rgs n,
+  Forall (fun pf => pf_simple S X pf = true) pfs ->
+  legacy_merge S seqb X verify basepath rel pfs = MOk S X bp sch rgs n ->
+  map (rg_path X) rgs = concat (map (fun pr => map (fun _ => Some (snd pr)) (pf_rgs S X (fst pr))) (combine pfs rel)).
+Proof. exact legacy_paths_simple. Qed.
+Print Assumptions C14_rowgroups_point_home.
+
 (* the fsspec fast path (>= 3 single files) and the legacy path agree: same base path, same row groups
    with the same first-chunk paths, same num_rows - for EVERY list of single files whose paths are
    normalised and have no empty part below the base (sliceable) *)
